@@ -1,7 +1,9 @@
 (* C14 driver.  One case per line:
-     (id V (rule ...) (probe ...) (op ...))
+     (id V (rule ...) (probe ...) (op ...))                basic ACL model (Cache.acl_ fixture)
+     (id V (rule ...) (rule2 ...) (probe ...) (op ...))    model with the sections r r2 / p p2 / e e2 /
+                                                           m .. m6 (Cache.cx_ fixture); V = cp | cs
    V      p = CachedEnforcer, s = SyncedCachedEnforcer
-   rule   (f1 f2 ...)            the text of the string adapter = initial policy
+   rule   (f1 f2 ...)            the text of the string adapter = initial policy ("p"; rule2: "p2")
    probe  (param ...)            requests asked of the EMBEDDED enforcer after every step
    param  (s TXT) string | (c RT PT ET MT) EnforceContext | (k TXT) other CacheableParam
           | (l (f ...)) a []string | (n N) any other value
@@ -9,6 +11,7 @@
           (inv) (load) (clear) (rm (param ...)) (add (param ...))
           (rms ((f ...) ...)) (adds ((f ...) ...)) (en 0|1) (ttl D)
           (pt rmn (f ...)) (pt addn (f ...)) (pt upd (f ...) (f ...)) (pt rmf IDX (v ...))
+          second fixture only: (pt add2 (f ...)) (pt rm2 (f ...))  Add/RemoveNamedPolicy("p2", ...)
    Output, per step i:  id <TAB> i <TAB> outcome   and   id <TAB> i.u <TAB> underlying decisions *)
 open Cache
 module Sx = Common.Sx
@@ -39,7 +42,25 @@ let param_of (x : Sx.t) : param =
 let params_of x = Stdlib.List.map param_of (Sx.list x)
 let rules_of x = Stdlib.List.map strs (Sx.list x)
 
-let op_of (x : Sx.t) : acl_op =
+let acl_mut_of (l : Sx.t list) : acl_mut option =
+  match l with
+  | [k; r] when Sx.atom k = "rmn" -> Some (MRemoveNamed (strs r))
+  | [k; r] when Sx.atom k = "addn" -> Some (MAddNamed (strs r))
+  | [k; a; b] when Sx.atom k = "upd" -> Some (MUpdate (strs a, strs b))
+  | [k; i; vs] when Sx.atom k = "rmf" ->
+      Some (MRemoveFiltered (Conv.nat_of_int (int_of_string (Sx.atom i)), strs vs))
+  | _ -> None
+
+let acl_pt l = match acl_mut_of l with Some m -> m | None -> failwith "bad pt"
+
+let cx_pt (l : Sx.t list) : cx_mut =
+  match l with
+  | [k; r] when Sx.atom k = "add2" -> CxAdd2 (strs r)
+  | [k; r] when Sx.atom k = "rm2" -> CxRemove2 (strs r)
+  | _ -> (match acl_mut_of l with Some m -> CxP m | None -> failwith "bad pt")
+
+(* the operation vocabulary is the same for both fixtures up to the pass-through mutators *)
+let op_of (pt : Sx.t list -> 'm) (x : Sx.t) : 'm op =
   match Sx.list x with
   | [t; now; ps] when Sx.atom t = "e" -> Enforce (z_of_int (int_of_string (Sx.atom now)), params_of ps)
   | [t] when Sx.atom t = "inv" -> InvalidateCache
@@ -51,11 +72,7 @@ let op_of (x : Sx.t) : acl_op =
   | [t; rs] when Sx.atom t = "adds" -> AddPolicies (rules_of rs)
   | [t; b] when Sx.atom t = "en" -> EnableCache (Sx.atom b = "1")
   | [t; d] when Sx.atom t = "ttl" -> SetExpireTime (z_of_int (int_of_string (Sx.atom d)))
-  | [t; k; r] when Sx.atom t = "pt" && Sx.atom k = "rmn" -> Passthrough (MRemoveNamed (strs r))
-  | [t; k; r] when Sx.atom t = "pt" && Sx.atom k = "addn" -> Passthrough (MAddNamed (strs r))
-  | [t; k; a; b] when Sx.atom t = "pt" && Sx.atom k = "upd" -> Passthrough (MUpdate (strs a, strs b))
-  | [t; k; i; vs] when Sx.atom t = "pt" && Sx.atom k = "rmf" ->
-      Passthrough (MRemoveFiltered (Conv.nat_of_int (int_of_string (Sx.atom i)), strs vs))
+  | t :: rest when Sx.atom t = "pt" -> Passthrough (pt rest)
   | _ -> failwith "bad op"
 
 let out_s = function
@@ -63,9 +80,9 @@ let out_s = function
   | ORet (ok, e) -> Printf.sprintf "ret=%s err=%s" (Sx.b2s ok) (Sx.b2s e)
   | OPanic -> "panic"
 
-let under st probes =
+let under enforce st probes =
   Stdlib.String.concat ""
-    (Stdlib.List.map (fun p -> match acl_enforce st p with Some true -> "1" | Some false -> "0" | None -> "e") probes)
+    (Stdlib.List.map (fun p -> match enforce st p with Some true -> "1" | Some false -> "0" | None -> "e") probes)
 
 let () =
   Sx.iter_stdin (fun c ->
@@ -76,8 +93,18 @@ let () =
         let probes = Stdlib.List.map params_of (Sx.list probes) in
         let s = ref (acl_init (rules_of rules)) in
         Stdlib.List.iteri (fun i o ->
-          let (s', out) = acl_run_step v !s (op_of o) in
+          let (s', out) = acl_run_step v !s (op_of acl_pt o) in
           s := s';
           Printf.printf "%s\t%d\t%s\n" id i (out_s out);
-          Printf.printf "%s\t%d.u\t%s\n" id i (under (ust !s) probes)) (Sx.list ops)
+          Printf.printf "%s\t%d.u\t%s\n" id i (under acl_enforce (ust !s) probes)) (Sx.list ops)
+    | [id; v; rules1; rules2; probes; ops] ->
+        let id = Sx.atom id in
+        let v = if Sx.atom v = "cs" then Synced else Plain in
+        let probes = Stdlib.List.map params_of (Sx.list probes) in
+        let s = ref (cx_init (rules_of rules1) (rules_of rules2)) in
+        Stdlib.List.iteri (fun i o ->
+          let (s', out) = cx_run_step v !s (op_of cx_pt o) in
+          s := s';
+          Printf.printf "%s\t%d\t%s\n" id i (out_s out);
+          Printf.printf "%s\t%d.u\t%s\n" id i (under cx_enforce (ust !s) probes)) (Sx.list ops)
     | _ -> failwith "bad case")
